@@ -88,6 +88,11 @@ def depth2_terms():
         out.append(("union", [x, ("None",)]))
         out.append(("union", [x, ("int",), ("None",)]))
         out.append(("tuple", [x, ("int",), ("str",)]))
+    # boundary shapes: the empty tuple type, alone and inside every unary constructor; a union of one member
+    empty = ("tuple", [])
+    out.append(empty)
+    out += [t for t in unary_constructors(empty) if t[0] not in ("generic",)]
+    out += [("dict", ("str",), empty), ("union", [empty, ("int",)]), ("tuple", [empty, ("int",)]), ("union", [("int",)])]
     # depth 3 spot: constructor of constructor over the small leaves
     for x in LEAVES_SMALL[:4]:
         for inner in unary_constructors(x):
